@@ -737,3 +737,24 @@ def _mask(v, cond):
 
 def value(d):
     return [at(d, i) for i in range(length_of(d))]
+
+
+def symbolic_length(d):
+    if d['cls'] in ('opaque', 'regular', 'record'):
+        return d['length']
+    if d['cls'] == 'unmasked':
+        return symbolic_length(d['content'])
+    return BV(length_of(d))
+
+
+def compare_value(res, want, path='value'):
+    """compare(value(res), want); when the shape of the result is not determined by the case split (a result whose length is a free symbolic
+    term - which is already wrong when `want` has a fixed length), compare the length symbolically and the leading entries by position"""
+    try:
+        return compare(value(res), want, path)
+    except Unsupported:
+        L = symbolic_length(res)
+        out = [('%s has %d entries' % (path, len(want)), L != len(want))]
+        for i, w in enumerate(want):
+            out += compare(at(res, i), w, '%s[%d]' % (path, i))
+        return out
